@@ -10,6 +10,11 @@
 (*   4 UrwidImage(image, s)                                                 *)
 (*                                                                         *)
 (*   [s |-> <<"<", "5", ...>>,  t |-> <<colsA, linesA, colsB, linesB>>,      *)
+(*    e |-> "default" | name of the non-default class/instance settings     *)
+(*          state (jpeg_quality, read_from_file, render method, ...) the    *)
+(*          observations were made under.  The judgement does not read it:  *)
+(*          Parse(style, s) has no settings parameter, i.e. a specifier     *)
+(*          must be accepted and denote the same under every setting.       *)
 (*    u |-> <<obs, ...>>            the distinct observations                *)
 (*    x |-> <<<<i,i,i,i>>, <<...>>, <<...>>>>   x[style][entry] indexes u]   *)
 (*   obs, rejected:  <<exception class, snapshot unchanged>>                *)
@@ -143,6 +148,6 @@ Spec == Init /\ [][Next]_vars
 
 Done == l = 1
 Report == Done => PrintT(<<"VERDICT", ToJson([tid |-> tid, verdict |-> res.v, style |-> res.style,
-                                              entry |-> res.entry, exp |-> res.exp, got |-> res.got,
+                                              entry |-> res.entry, exp |-> res.exp, got |-> res.got, env |-> Tr.e,
                                               sentence |-> res.sentence])>>)
 =============================================================================
